@@ -91,6 +91,7 @@ func NewStore(params *Parameters, basePath string) (*Store, error) {
 	if err := store.populateEmptyFile(); err != nil {
 		return nil, fmt.Errorf("ensuring empty EDS: %w", err)
 	}
+	verifMark("newstore.ready", 0, basePath)
 
 	return store, nil
 }
@@ -130,6 +131,8 @@ func (s *Store) put(
 		lock := s.stripLock.byHeight(height)
 		lock.Lock()
 		defer lock.Unlock()
+		verifMark("put.locked", height, "")
+		defer verifMark("put.end", height, "")
 		err := s.linkHeight(datahash, height)
 		if errors.Is(err, os.ErrExist) {
 			return nil
@@ -146,11 +149,14 @@ func (s *Store) put(
 		// release the ref link to the accessor
 		utils.CloseAndLog(log, "recent accessor", acc)
 	}
+	verifMark("put.cached", height, "")
 
 	tNow := time.Now()
 	lock := s.stripLock.byHashAndHeight(datahash, height)
 	lock.lock()
 	defer lock.unlock()
+	verifMark("put.locked", height, "")
+	defer verifMark("put.end", height, "")
 
 	var exists bool
 	if writeQ4 {
@@ -369,10 +375,12 @@ func (s *Store) GetByHeight(ctx context.Context, height uint64) (eds.AccessorStr
 func (s *Store) getByHeight(ctx context.Context, height uint64) (eds.AccessorStreamer, error) {
 	f, err := s.cache.Get(height)
 	if err == nil {
+		verifMark("get.cached", height, "")
 		return f, nil
 	}
 
 	path := s.heightToPath(height, odsFileExt)
+	verifMark("get.open", height, path)
 	return s.openAccessor(ctx, path)
 }
 
@@ -454,6 +462,8 @@ func (s *Store) RemoveODSQ4(ctx context.Context, height uint64, datahash share.D
 	lock := s.stripLock.byHashAndHeight(datahash, height)
 	lock.lock()
 	defer lock.unlock()
+	verifMark("removeodsq4.locked", height, "")
+	defer verifMark("removeodsq4.end", height, "")
 
 	// Size the files before removal so the bytes-reclaimed metric reflects
 	// what actually left the filesystem. The hardlink in heights/ shares an
@@ -485,6 +495,7 @@ func (s *Store) removeODS(height uint64, datahash share.DataHash) error {
 	if err := s.cache.Remove(height); err != nil {
 		return fmt.Errorf("removing from cache: %w", err)
 	}
+	verifMark("cache.removed", height, "")
 
 	pathLink := s.heightToPath(height, odsFileExt)
 	if err := remove(pathLink); err != nil {
@@ -507,6 +518,8 @@ func (s *Store) RemoveQ4(ctx context.Context, height uint64, datahash share.Data
 	lock := s.stripLock.byHashAndHeight(datahash, height)
 	lock.lock()
 	defer lock.unlock()
+	verifMark("removeq4.locked", height, "")
+	defer verifMark("removeq4.end", height, "")
 
 	var bytes int64
 	if !datahash.IsEmptyEDS() {
@@ -528,6 +541,7 @@ func (s *Store) removeQ4(height uint64, datahash share.DataHash) error {
 	if err := s.cache.Remove(height); err != nil {
 		return fmt.Errorf("removing from cache: %w", err)
 	}
+	verifMark("cache.removed", height, "")
 
 	// remove Q4 file
 	pathQ4File := s.hashToPath(datahash, q4FileExt)
@@ -568,6 +582,7 @@ func mkdir(path string) error {
 	if err != nil && !errors.Is(err, os.ErrExist) {
 		return fmt.Errorf("making directory '%s': %w", path, err)
 	}
+	verifMark("fs.mkdir", 0, path)
 
 	return nil
 }
@@ -575,16 +590,20 @@ func mkdir(path string) error {
 func hardLink(filepath, linkpath string) error {
 	err := os.Link(filepath, linkpath)
 	if err != nil {
+		verifMark("fs.link.err", 0, linkpath)
 		return fmt.Errorf("creating hardlink (%s -> %s): %w", filepath, linkpath, err)
 	}
+	verifMark("fs.link", 0, linkpath)
 	return nil
 }
 
 func symlink(filepath, linkpath string) error {
 	err := os.Symlink(filepath, linkpath)
 	if err != nil {
+		verifMark("fs.symlink.err", 0, linkpath)
 		return fmt.Errorf("creating symlink (%s -> %s): %w", filepath, linkpath, err)
 	}
+	verifMark("fs.symlink", 0, linkpath)
 	return nil
 }
 
@@ -605,6 +624,7 @@ func remove(path string) error {
 	if err != nil && !errors.Is(err, os.ErrNotExist) {
 		return fmt.Errorf("removing file '%s': %w", path, err)
 	}
+	verifMark("fs.remove", 0, path)
 	return nil
 }
 
